@@ -23,6 +23,11 @@ Theorem C16_delete : forall k s k', lget k' (ldelete k s) = if String.eqb k' k t
 Proof. exact delete_spec. Qed.
 Print Assumptions C16_delete.
 
+(* deleting a name that is not a key (the directory part of keys, for instance) changes nothing *)
+Theorem C16_delete_nonkey : forall k s, lget k s = None -> ldelete k s = s.
+Proof. exact delete_nonkey. Qed.
+Print Assumptions C16_delete_nonkey.
+
 (* an emptied store holds no key and accepts every write again *)
 Theorem C16_clear : forall s k v e, lget k (lclear s) = None /\ lput k v e (lclear s) = (LOk, [(k, v)]).
 Proof. exact clear_spec. Qed.
